@@ -49,8 +49,10 @@ ASSUMPTIONS = [
     "float rounding, LAPACK eig/inv accuracy and numpy.maximum(result, 0) clipping are not modelled: back-ends are compared "
     "numerically against the exact Taylor value with an exact remainder bound (tolerance max(1e-9, bound))",
     "GammaDefn: only the normalisation given the bin medians is modelled (gdtri is not)",
-    "GeneralStationary's column-balancing loop is modelled and shadowed but its flow-balance post-condition is not proved "
-    "(stationaryQ_stationary assumes it; pi Q = 0 is checked numerically on the class)",
+    "GeneralStationary: pi Q = 0 is proved for the exact branch (all required values >= 0); in the allclose branch "
+    "(-1e-8 <= required < 0 replaced by |required|) stationarity holds only up to ~2e-8 and is checked numerically",
+    "eigen back-ends: proved for an exact decomposition and an abstract exponential; LAPACK eig/inv and float exp are inputs "
+    "(the inner-product + clip step is shadowed exactly, real-eigenvalue case)",
 ]
 
 Q_RTOL = 1e-10
@@ -471,7 +473,8 @@ def _corr_solve(ctx, out):
         if "err" in rep:
             bump(out, "solve_outcome", "model:singular")
             # numpy must refuse too, or return garbage (an exactly singular matrix can slip through LU with a tiny pivot)
-            if X is not None and np.isfinite(X).all() and np.abs(D @ X - N).max() <= 1e-6 * max(1.0, float(np.abs(X).max())):
+            # (LU of an exactly singular matrix often meets a pivot ~1e-17 instead of 0 and returns entries ~1e16)
+            if X is not None and np.isfinite(X).all() and np.abs(X).max() < 1e9 and np.abs(D @ X - N).max() <= 1e-9 * max(1.0, float(np.abs(N).max())):
                 add_failure(out, "corr", "solve: model says singular, numpy returns an accurate solution", inp, "LinAlgError", X.tolist(),
                             sig="corr:solve:singular")
             continue
